@@ -261,6 +261,9 @@ func unitStream(r *vh.Rng, n int, casesPath string, sum *vh.Summary) {
 		if !bytes.Equal(flat, wire) {
 			cj["expected"] = vh.Hex(flat)
 			sum.FailC("unit", wclass, "a written frame is not Encode(header) ++ Encode(body) of the same Handle", cj)
+			// the unit boundaries below are those of the expected bytes: nothing more to learn from this case
+			sum.Count("unit."+name, "")
+			continue
 		} else if !cutsOK {
 			sum.FailC("unit", wclass, "bytes of a frame were still buffered when the write call returned (no flush)", cj)
 		}
